@@ -222,6 +222,13 @@ example : Life.C03.ok [.enter .handle (.msg 1), .treeKill, .tick .handle] = fals
 example : Life.C03.ok [.enter .handle (.msg 1), .tick .handle, .killRet true true, .exit .handle .ok] = true := by decide
 example : Life.C03.ok [.enter .handle (.msg 1), .aborted, .cancelled .handle] = true := by decide
 
+/-- E-SRC, async-std backend (round 4): in `actor_cell.rs` the `#[cfg(feature = "async-std")]` block of
+`listen_in_priority` and of `run_with_signal` is the tokio block with every arm's future `.fuse()`d (what
+`futures::select_biased!` needs) and nothing else changed; together with `src_select_biased` /
+`src_select_order` / `src_run_with_signal` the priority order is the same on both backends. -/
+theorem src_async_std_select_twins :
+    Extracted.asyncStdSelectTwins = [("listen_in_priority", true), ("run_with_signal", true)] := by decide
+
 end C03
 
 #print axioms C03.priority
@@ -238,3 +245,4 @@ end C03
 #print axioms C03.src_select_order
 #print axioms C03.src_select_biased
 #print axioms C03.src_run_with_signal
+#print axioms C03.src_async_std_select_twins
